@@ -289,6 +289,16 @@ func (h *NFSProcedureHandler) handleMkdir(body io.Reader, reply *RPCReply, authC
 		return reply, nil
 	}
 
+	// The directory now exists: drop what the caches say about it and its
+	// parent (a negative entry from an earlier LOOKUP, the parent's cached
+	// listing), exactly as Create and Symlink do.
+	h.server.handler.attrCache.Invalidate(node.path)
+	h.server.handler.attrCache.InvalidateNegativeInDir(node.path)
+	h.server.handler.attrCache.Invalidate(dirPath)
+	if h.server.handler.dirCache != nil {
+		h.server.handler.dirCache.Invalidate(node.path)
+	}
+
 	// Apply uid/gid: use effective UID/GID from auth context as default,
 	// only allow explicit override if caller is root (not squashed).
 	{
